@@ -41,6 +41,11 @@ def load_prop(pid):
 NPROC = max(2, min(16, (os.cpu_count() or 4)))
 
 
+def is_reset(line):
+    """`reset` (optionally followed by constructor arguments) starts a new history."""
+    return line == "reset" or line.startswith("reset ")
+
+
 def split_ops(ops, history, parts):
     """Cut points for running a batch in several processes: anywhere for stateless batches, only in front of a
     `reset` line for histories."""
@@ -49,7 +54,7 @@ def split_ops(ops, history, parts):
     cuts, step = [0], max(1, len(ops) // parts)
     want = step
     for i in range(1, len(ops)):
-        if i >= want and (not history or ops[i] == "reset"):
+        if i >= want and (not history or is_reset(ops[i])):
             cuts.append(i)
             want = i + step
     cuts.append(len(ops))
@@ -147,7 +152,7 @@ def run_harness1(binp, ops, history=False, timeout=3000, max_restarts=12):
         deaths.append({"at": start + k, "op": ops[start + k], "how": how, "rc": rc})
         nxt = start + k + 1
         if history:
-            while nxt < len(ops) and ops[nxt] != "reset":
+            while nxt < len(ops) and not is_reset(ops[nxt]):
                 out[nxt] = "SKIPPED-AFTER-DEATH"
                 nxt += 1
         start = nxt
@@ -179,8 +184,8 @@ def differs(prop, binp, ops, history):
     return any(not same(prop, o, a, b) for o, a, b in zip(ops, i, m) if a not in ("SKIPPED-AFTER-DEATH", "NOT-RUN"))
 
 
-def ddmin(prop, binp, case, budget=120):
-    """case: list of op lines of one history (without the leading reset).  Classic ddmin on lines."""
+def ddmin(prop, binp, case, budget=120, head="reset"):
+    """case: list of op lines of one history (without the leading reset line `head`).  Classic ddmin on lines."""
     t0 = time.time()
     n = 2
     cur = list(case)
@@ -189,7 +194,7 @@ def ddmin(prop, binp, case, budget=120):
         reduced = False
         for i in range(0, len(cur), chunk):
             cand = cur[:i] + cur[i + chunk:]
-            if cand and differs(prop, binp, ["reset"] + cand, True):
+            if cand and differs(prop, binp, [head] + cand, True):
                 cur, n, reduced = cand, max(n - 1, 2), True
                 break
         if not reduced:
@@ -308,7 +313,7 @@ def main(argv=None):
             for f in sorted(os.listdir(cdir)):
                 if f.endswith(".ops"):
                     lines = [l.rstrip("\n") for l in open(os.path.join(cdir, f)) if l.strip() and not l.startswith("#")]
-                    kind = "history" if lines and lines[0] == "reset" else "stateless"
+                    kind = "history" if lines and is_reset(lines[0]) else "stateless"
                     batches.append(Batch("corpus/" + f, lines, kind=kind))
         batches += list(prop.batches(rng, a.tier))
         for b in batches:
@@ -328,7 +333,7 @@ def main(argv=None):
             exhaustive_all = exhaustive_all and b.exhaustive
             nt = getattr(prop, "nontrivial", None)
             for o, x in zip(b.ops, model):
-                if o != "reset" and (nt is None or nt(o, x)):
+                if not (hist and is_reset(o) and o == "reset") and (nt is None or nt(o, x)):
                     nontrivial.add(o if not hist else (o, x))
             if len(samples) < 12:
                 k = min(len(b.ops) - 1, 1 + rng.below(max(1, len(b.ops) - 1)))
@@ -425,11 +430,12 @@ def localise(prop, binp, b, k, impl, model):
     """Turn the k-th differing line of batch b into a minimal replayable case."""
     if b.kind == "history":
         s = k
-        while s > 0 and b.ops[s] != "reset":
+        while s > 0 and not is_reset(b.ops[s]):
             s -= 1
-        case = [o for o in b.ops[s:k + 1] if o != "reset"]
-        small = ddmin(prop, binp, case)
-        ops = ["reset"] + small
+        head = b.ops[s] if is_reset(b.ops[s]) else "reset"
+        case = [o for o in b.ops[s + 1:k + 1]] if is_reset(b.ops[s]) else list(b.ops[s:k + 1])
+        small = ddmin(prop, binp, case, head=head) if case else []
+        ops = [head] + small
     else:
         ops = [b.ops[k]]
         ref = getattr(prop, "refine", None)
